@@ -50,7 +50,8 @@ Definition dBindOp : dec cache_op :=
   | 2 => let* t := dPos in ret (OpEv (EvTerminating t))
   | 3 => let* t := dPos in ret (OpEv (EvDelete t))
   | 4 => let* e := dZ in let* t := dTaskSpec in ret (OpEv (EvPodAdd (task_of_spec e t)))
-  | 5 => let* t := dPos in let* _ := dBool in ret (OpEv (EvUpdateUnbound t))   (* flag: same resourceVersion (resync) *)
+  | 5 => let* t := dPos in let* _ := dBool in ret (OpEv (EvUpdateUnbound t false))   (* flag: same resourceVersion (resync) *)
+  | 8 => let* t := dPos in ret (OpEv (EvUpdateUnbound t true))   (* the update carries a deletionTimestamp, nodeName still empty *)
   | 6 => let* t := dPos in ret (OpEv (EvBoundArrives t))
   | 7 => let* n := dPos in ret (OpEv (EvRemoveNode n))
   | _ => fail
